@@ -120,3 +120,52 @@ func H_C10_gr4j_hunt_x4_0p75() { c10gr4jHunt(0.75) }
 // H_C10_gr4j_hunt_x4_2p5: same for x4 = 2.5.
 //vsym:prop=C10 tier=quick ints=int floats=real timeout=30
 func H_C10_gr4j_hunt_x4_2p5() { c10gr4jHunt(2.5) }
+
+// c10gr4jHuntX: two days with a symbolic exchange coefficient x2 in [-10,5] and symbolic PET,
+// from an arbitrary state with S <= x1, R <= x3: runoff >= 0 on both days, stores within bounds,
+// and for x2 <= 0 no water created - as counterexample searches + native probing (corner points
+// such as x2 = -10, x3 = 1, R = x3 included).
+func c10gr4jHuntX(x4 float64) {
+	n1, n2 := int(math.Ceil(x4)), int(math.Ceil(2*x4))
+	P, E := c10in("rain", 0, 200), c10in("pet", 0, 20)
+	x1, x2, x3 := c10in("x1", 1, 1500), c10in("x2", -10, 5), c10in("x3", 1, 500)
+	S, R := c10in("S", 0, 1500), c10in("R", 0, 500)
+	vsym.Assume(S <= x1)
+	vsym.Assume(R <= x3)
+	q9, q1 := make([]float64, n1), make([]float64, n2)
+	sum0 := S + R
+	for i := range q9 {
+		q9[i] = c10in("q9", 0, 50)
+		sum0 += q9[i]
+	}
+	for i := range q1 {
+		q1[i] = c10in("q1", 0, 50)
+		sum0 += q1[i]
+	}
+	out, rain, pet := rrOut(2), rrOut(2), rrOut(2)
+	rain.Set1(0, P)
+	pet.Set1(0, E)
+	pet.Set1(1, E)
+	S2, R2, _, _, q1o, q9o := gr4j(rain, pet, S, R, n1, n2, q1, q9, x1, x2, x3, x4, out)
+	vsym.Reach("stepped")
+	sum1 := S2 + R2
+	for i := 0; i < n1; i++ {
+		sum1 += q9o[i]
+	}
+	for i := 0; i < n2; i++ {
+		sum1 += q1o[i]
+	}
+	vsym.Hunt(out.Get1(0) >= 0 && out.Get1(1) >= 0, "runoff-nonnegative")
+	vsym.Hunt(S2 >= 0 && S2 <= x1 && R2 >= 0, "stores-within-bounds")
+	if x2 <= 0 {
+		vsym.Hunt(out.Get1(0)+out.Get1(1)+sum1 <= P+sum0+1e-6, "no-water-created-for-nonpositive-exchange")
+	}
+}
+
+// H_C10_gr4j_huntx_x4_0p75: x4 = 0.75.
+//vsym:prop=C10 tier=quick ints=int floats=real timeout=30
+func H_C10_gr4j_huntx_x4_0p75() { c10gr4jHuntX(0.75) }
+
+// H_C10_gr4j_huntx_x4_2p5: x4 = 2.5.
+//vsym:prop=C10 tier=quick ints=int floats=real timeout=30
+func H_C10_gr4j_huntx_x4_2p5() { c10gr4jHuntX(2.5) }
